@@ -461,6 +461,14 @@ def _rw_io_once(tl):
             i += 3
             cnt += 1
             continue
+        if tl[i:i + 6] == ["std", "::", "char", "::", "from_u32", "("]:
+            j = _close(tl, i + 5)
+            if tl[j + 1:j + 4] == [".", "ok_or_else", "("]:
+                k = _close(tl, j + 3)
+                out += ["char_from_u32_or_err", "("] + tl[i + 6:j] + [")"]
+                i = k + 1
+                cnt += 1
+                continue
         if tl[i:i + 3] == ["ext", "::", "num_to_unicode"]:
             out.append("ext_num_to_unicode")
             i += 3
